@@ -3,14 +3,16 @@ from __future__ import annotations
 
 import ast
 import re
+from collections import Counter
 from fractions import Fraction
 
 from ..effects import expr_path
-from ..identity import Ident, has_base, show
+from ..identity import Ident, has_base, show, alternatives
 from ..loops import dotted
 from ..nf import NF, Scope, Poly, parse_expr
 from ..repo import Repo, loc, short, AnalysisError, bind_call, positional_params, param_names
 from ..resolve import Resolver
+from ..specialise import load_signatures
 from .c05 import grad_sites
 
 EXPLANATION = (
@@ -20,12 +22,16 @@ EXPLANATION = (
     "polynomial identity T == R + (1 - D) * gamma * B over the role atoms R = batch[2], D = batch[4] (whatever the syntactic "
     "arrangement), the bootstrap B is compared with the documented kind through a census of its calls (which module on which role "
     "data under which combining operation), and gradient dependence is tracked through stop_gradient / argmax. R7 transfers the "
-    "roles to the callers: the module bound to a target role at every train_step call is a target object of that loop."
+    "roles to the callers: the module bound to a target role at every train_step call is a target object of that loop. Parameters "
+    "take their roles from the recorded signatures (by name, a renamed one by its position). A comparison that fails counts as a "
+    "violation only on a value the engine has read completely and that is built from the documented vocabulary (a substituted module, "
+    "role, operation, axis, constant or sign); anything else is reported as an unrecognised form (undecided)."
 )
 TRUSTED = [
     "optax.squared_error / l2_loss / huber_loss, jnp semantics of max / minimum / take_along_axis / clip",
     "the sampled Batch field order (observation, action, reward, next_observation, termination) parsed from ReplayBuffer.__init__",
     "jax.lax.stop_gradient blocks differentiation; argmax / comparisons have zero gradient",
+    "network outputs and batch fields are 2-d / 1-d arrays: axis=-1 and axis=1 name the same axis",
 ]
 RULES = {
     "R1-target-identity": "the regression target is identically r + (1 - terminated) * gamma * B (MR.Q: (G + c*B*s_target)/s); terminated samples carry no bootstrap term",
@@ -41,60 +47,219 @@ RULES = {
 L = "rl_blox.blox.losses."
 ROLE = {"O": "batch[0]", "A": "batch[1]", "R": "batch[2]", "N": "batch[3]", "D": "batch[4]"}
 
-# loss -> spec.  census entries were generated from the pinned tree and confirmed against the docstrings (Appendix A of DESIGN.md).
+# loss -> spec (parameter names are those of the recorded signatures).  census entries were generated from the pinned tree and confirmed against the
+# docstrings (Appendix A of DESIGN.md); they are compared as sets, layout operations (reshape / squeeze / astype ...) are not part of them.
 SPEC = {
     L + "dqn_loss": {"theta": "q", "targets": [], "n_sites": 1, "kind": ["sq"],
                      "census": ["max(axis=1) <- {N}", "q <- {N}"]},
     L + "nature_dqn_loss": {"theta": "q", "targets": ["q_target"], "n_sites": 1, "kind": ["sq"],
                             "census": ["max(axis=1) <- {N}", "q_target <- {N}"]},
     L + "ddqn_loss": {"theta": "q", "targets": ["q_target"], "n_sites": 1, "kind": ["sq"],
-                      "census": ["argmax(axis=1) <- {N}", "argmax>q <- {N}", "q_target <- {N}", "reshape <- {N}", "take_along_axis(axis=1) <- {N}"]},
-    L + "ddqn_per_loss": {"theta": "q", "targets": ["q_target"], "n_sites": 1, "kind": ["abs2"], "weight": "is_ratio",
-                          "census": ["argmax(axis=1) <- {N}", "argmax>q <- {N}", "q_target <- {N}", "reshape <- {N}", "take_along_axis(axis=1) <- {N}"]},
+                      "census": ["argmax(axis=1) <- {N}", "argmax>q <- {N}", "q_target <- {N}", "take_along_axis(axis=1) <- {N}"]},
+    L + "ddqn_per_loss": {"theta": "q", "targets": ["q_target"], "n_sites": 1, "kind": ["sq"], "weight": "is_ratio",
+                          "census": ["argmax(axis=1) <- {N}", "argmax>q <- {N}", "q_target <- {N}", "take_along_axis(axis=1) <- {N}"]},
     L + "ddpg_loss": {"theta": "q", "targets": ["q_target_value", "policy_target"], "n_sites": 1, "kind": ["sq"],
-                      "census": ["concat(axis=-1) <- {N}", "policy_target <- {N}", "q_target_value <- {N}"]},
+                      "census": ["concat(axis=1) <- {N}", "policy_target <- {N}", "q_target_value <- {N}"]},
     L + "td3_loss": {"theta": "q", "targets": ["q_target"], "n_sites": 2, "kind": ["sq"],
-                     "census": ["concat(axis=-1) <- {N}", "q_target <- {N}"]},
+                     "census": ["concat(axis=1) <- {N}", "q_target <- {N}"]},
     L + "td3_lap_loss": {"theta": "q", "targets": ["q_target"], "n_sites": 2, "kind": ["huber_abs"],
-                         "census": ["concat(axis=-1) <- {N}", "q_target <- {N}"]},
+                         "census": ["concat(axis=1) <- {N}", "q_target <- {N}"]},
     L + "sac_loss": {"theta": "q", "targets": ["q_target"], "n_sites": 2, "kind": ["sq"],
-                     "census": ["concat(axis=-1) <- {N}", "policy.log_probability <- {N}", "policy.sample <- {N}", "policy.sample <- {N}", "q_target <- {N}"],
+                     "census": ["concat(axis=1) <- {N}", "policy.log_probability <- {N}", "policy.sample <- {N}", "q_target <- {N}"],
                      "entropy": True},
 }
 
 
+# ---- what counts as evidence ----------------------------------------------------------------------------------
+_TEMP = re.compile(r"__i\d+\b")                                   # a temporary of the helper expander that stayed a free name
+_LEAF = re.compile(r"(batch\[\d+\]|[A-Za-z_]\w*)")                # a role atom or a plain parameter
+_MODCALL = re.compile(r"⊥?[A-Za-z_]\w*(\.[A-Za-z_]\w*)*")         # `q`, `q.q1`, `policy.sample`: a (method of a) parameter being called
+_RECORD = re.compile(r"(⊥)?rl_blox\.[\w.]+\._?[A-Z]\w*\(")
+
+
+def _has_record(nf, a, depth=0):
+    m = nf.meta.get(a)
+    if m is None or depth > 8:
+        return False
+    if m.get("record"):
+        return True
+    return any(_has_record(nf, b, depth + 1) for q in list(m.get("args", [])) + list(m.get("kws", {}).values()) for b in q.atoms())
+
+
+def _unread(nf, *polys):
+    """The first atom of the given values that the engine has not read: a merge of definitions φ(..), an opaque expression ⟦..⟧ / λ[..], a
+    temporary of the helper expander that is still a free name, a record value, a stop_gradient that was not interpreted.  A comparison
+    made on such a value is not evidence of anything."""
+    for p in polys:
+        if p is None:
+            continue
+        if p.elems is not None:
+            u = _unread(nf, *p.elems)
+            if u is not None:
+                return u
+            continue
+        for a in sorted(p.atoms()):
+            if "φ(" in a or "⟦" in a or "λ[" in a or _TEMP.search(a) or "stop_gradient" in a or _RECORD.match(a) or _has_record(nf, a):
+                return a
+    return None
+
+
+def _nested(nf, p: Poly, leaves):
+    """An atom of ``p`` that depends on one of ``leaves`` without being that leaf: the polynomial reading of ``p`` in the leaf is incomplete there
+    (`where(terminated, ..)`, `logical_not(terminated)`, `pow(gamma, n)` ...)."""
+    for a in sorted(p.atoms()):
+        if a not in leaves and (set(leaves) & set(nf.atom_deps(a))):
+            return a
+    return None
+
+
+class _Site:
+    """Obligations of one rule group.  A failing comparison is recorded as a violation only when every value it was decided on has been read by
+    the engine; the undecided ones are collected and raised together when the group is closed (obligations recorded meanwhile stay, so a
+    definite violation found next to an unrecognised form is still reported)."""
+
+    def __init__(self, ck, nf, site, where):
+        self.ck, self.nf, self.site, self.where, self.und = ck, nf, site, where, []
+
+    def ob(self, rule, key, ok, construct, detail="", read=(), where=None):
+        ok = bool(ok)
+        if not ok:
+            u = _unread(self.nf, *read)
+            if u is not None:
+                return self.undecided(key, f"decided on a value the engine has not read, `{u[:80]}`")
+        self.ck.ob(rule, self.site, key, ok, construct, "" if ok else detail, where or self.where)
+        return ok
+
+    def undecided(self, key, msg):
+        self.und.append(f"{self.site}: {key}: {msg} (unrecognised form)")
+        return None
+
+    def close(self):
+        if self.und:
+            raise AnalysisError("; ".join(self.und[:4]))
+
+
+_SIGS = None
+
+
+def _roles_env(repo, fn, qual):
+    """(env, renamed): every parameter bound to an atom that carries the name of the *recorded* signature (the names the tables of this file use).
+    A parameter keeps its recorded name where that still exists; one that was renamed takes the role of the recorded parameter at its
+    position - only when the two signatures line up one to one (options added later, which the specialise pass reads at their defaults,
+    do not count)."""
+    global _SIGS
+    if _SIGS is None:
+        _SIGS = load_signatures()
+    rec = _SIGS.get(qual)
+    actual = param_names(fn)
+    ren = {}
+    if rec:
+        special = {p for q_, p, _d in (getattr(repo, "specialised", None) or []) if q_ == qual}
+        core = [a for a in actual if a not in special]
+        if len(core) == len(rec):
+            for a, c in zip(core, rec):
+                if a != c and a not in rec and c not in actual:
+                    ren[a] = c
+    env = {}
+    for a in actual:
+        c = ren.get(a, a)
+        env[a] = Poly.atom(c, {c}, {c})
+    return env, ren
+
+
+def _actual(ren, canon):
+    return next((a for a, c in ren.items() if c == canon), canon)
+
+
+def _ret(nf, qual, env):
+    try:
+        return nf.return_poly(qual, env)
+    except ValueError as e:
+        raise AnalysisError(f"{e} (unrecognised form)")
+
+
+def _loss_of(nf, ret: Poly) -> Poly:
+    """The loss value of a returned (loss, aux): first element of the tuple display, first field of a plain record (NamedTuple carrier)."""
+    if ret.elems is not None:
+        return ret.elems[0]
+    m = nf.meta.get(ret.single_atom() or "")
+    if m and m.get("record") and m.get("args"):
+        return m["args"][0]
+    return ret
+
+
+# ---- census of the bootstrap ------------------------------------------------------------------------------------
+_LAYOUT = {"squeeze", "asarray", "array", "reshape", "expand_dims", "astype", "arange", "len", "ravel", "flatten", "atleast_1d", "int", "float", "copy",
+           "float32", "float64", "int32", "shape"}
+_AXIS_AT = {"max": 1, "min": 1, "argmax": 1, "argmin": 1, "concat": 1, "take_along_axis": 2, "mean": 1, "sum": 1}
+_KNOWN_OPS = set(_AXIS_AT) | {"minimum", "maximum", "clip"}
+_FAMILY = {"max": "extremum", "min": "extremum", "argmax": "selection", "argmin": "selection", "minimum": "pairwise", "maximum": "pairwise"}
+_VALUE_CHANGING = {"tanh", "exp", "log", "log1p", "sqrt", "abs", "square", "sigmoid", "softplus", "relu", "sin", "cos", "sign", "pow", "negative", "logsumexp", "softmax"}
+
+
 def _norm_fn(fn: str) -> str:
-    return {"concatenate": "concat", "hstack": "concat", "amax": "max", "amin": "min"}.get(fn, fn)
+    return {"concatenate": "concat", "hstack": "concat", "column_stack": "concat", "amax": "max", "amin": "min"}.get(fn, fn)
 
 
-def census(nf: NF, p: Poly, params: set) -> list:
-    """Sorted list of the calls occurring in poly ``p`` (recursively): '[argmax>]fn(kw=..) <- {roles}'.
-    Module calls nested under an argmax (action *selection*) are marked, so selection and evaluation nets cannot be swapped."""
-    out = []
+def _axis(fn, name, m):
+    ax = m["kws"].get("axis")
+    at = _AXIS_AT.get(name)
+    pos = None
+    if ax is None and at is not None and len(m["args"]) > at and m["args"][at].elems is None and m["args"][at].is_const():
+        ax, pos = m["args"][at], at
+    if ax is None:
+        return ("1" if fn in ("hstack", "column_stack") else None), pos
+    txt = ax.canon()
+    return ("1" if txt == "-1" else txt), pos       # outputs and batch fields are 2-d: the last axis is axis 1
+
+
+def census(nf: NF, p: Poly, params: set):
+    """(entries, unknown).  entries: sorted set of the calls occurring in poly ``p`` (recursively): '[argmax>]fn(axis=..) <- {roles}' for calls of
+    module parameters and for value-carrying library operations (layout operations are skipped; axis read by keyword or position, -1 == 1).
+    Module calls nested under an argmax (action *selection*) are marked, so selection and evaluation nets cannot be swapped.
+    unknown: what the census could not read (functions outside its vocabulary, subscripts whose index it does not see, opaque atoms)."""
+    out, unknown = set(), []
     inv = {v: k for k, v in ROLE.items()}
 
     def visit_atom(a, ctx):
         m = nf.meta.get(a)
         if m is None:
+            if not (re.fullmatch(r"[A-Za-z_][\w.]*|batch\[\d+\]|'.*'", a.lstrip("⊥"))):
+                unknown.append(a)
             return
         fn = m["fn"]
         sub = ctx
-        if fn and fn not in ("subscript", "attr", "proj", "sq"):
-            root = fn.split(".")[0].split("(")[0]
-            is_module = root in params
-            is_lib = not is_module and "." not in fn and fn.isidentifier()
-            if is_module or is_lib:
-                roles = sorted({inv[d] for d in m["deps"] if d in inv})
-                kws = ",".join(f"{k}={v.canon()}" for k, v in sorted(m["kws"].items()) if k in ("axis",))
+        skip = None
+        if fn == "subscript":
+            unknown.append(a)                       # the index expression is not part of the recorded arguments
+        elif fn and fn not in ("attr", "proj", "sq"):
+            root = fn.lstrip("⊥").split(".")[0]
+            roles = sorted({inv[d] for d in m["deps"] if d in inv})
+            if (not roles or "batch" in m["deps"]) and ((_MODCALL.fullmatch(fn) and root in params) or (fn.isidentifier() and _norm_fn(fn) not in _LAYOUT)):
+                unknown.append(f"{fn} on data whose batch fields are not visible")
+            if _MODCALL.fullmatch(fn) and root in params:
+                out.add(f"{ctx}{fn.lstrip('⊥')} <- {{{','.join(roles)}}}")
+            elif fn.isidentifier():
                 name = _norm_fn(fn)
-                if name not in ("squeeze", "asarray", "array"):
-                    out.append(f"{ctx if is_module else ''}{name}{'(' + kws + ')' if kws else ''} <- {{{','.join(roles)}}}")
+                if name not in _LAYOUT:
+                    ax, skip = _axis(fn, name, m)
+                    if ax is not None and not re.fullmatch(r"-?\d+", ax):
+                        unknown.append(f"{name} along the computed axis {ax[:40]}")
+                    if name in ("max", "min") and len(m["args"]) >= 2:
+                        unknown.append(f"{name} with positional arguments")      # jnp.max(x, 1) and the builtin max(x, 1) have one normal form (arguments ordered)
+                    out.add(f"{name}{'(axis=' + ax + ')' if ax is not None else ''} <- {{{','.join(roles)}}}")
+                    if name not in _KNOWN_OPS and name not in _VALUE_CHANGING:
+                        unknown.append(name)
                 if name in ("argmax", "argmin"):
                     sub = ctx + name + ">"
-        for q in m["args"]:
-            visit_poly(q, sub)
-        for q in m["kws"].values():
-            visit_poly(q, sub)
+            else:
+                unknown.append(fn)                  # neither a module parameter nor a library function: a helper that was not inlined, a method of a value
+        for i, q in enumerate(m["args"]):
+            if i != skip:
+                visit_poly(q, sub)
+        for k, q in m["kws"].items():
+            if k != "axis":
+                visit_poly(q, sub)
 
     def visit_poly(q, ctx):
         if q.elems is not None:
@@ -105,9 +270,34 @@ def census(nf: NF, p: Poly, params: set) -> list:
             visit_atom(a, ctx)
 
     visit_poly(p, "")
-    return sorted(out)
+    return sorted(out), unknown
 
 
+def census_verdict(cen, unknown, want, params):
+    """True: the documented census.  False: the whole bootstrap was read and differs by a *substitution* inside the documented vocabulary (another
+    module / role / selection context, max<->min, another axis) or passes through a value-changing function.  Otherwise a text saying why the
+    difference is not evidence (an operation outside the vocabulary, calls missing or added without counterpart)."""
+    got, want = set(cen), set(want)
+    if got == want:
+        return True
+    extra, missing = got - want, want - got
+    if unknown:
+        return f"the bootstrap contains `{str(unknown[0])[:60]}`, which the census does not read"
+
+    def name(e):
+        return e.split(" <- ")[0].split(">")[-1].split("(")[0]
+
+    def cat(e):
+        n = name(e)
+        return "module" if n.split(".")[0] in params else _FAMILY.get(n, n)
+    if any(name(e) in _VALUE_CHANGING for e in extra):
+        return False
+    if extra and missing and Counter(map(cat, extra)) == Counter(map(cat, missing)):
+        return False
+    return f"bootstrap calls {sorted(got)} are neither the documented {sorted(want)} nor a substitution within them"
+
+
+# ---- regression sites ----------------------------------------------------------------------------------------------
 def regression_sites(nf: NF, Lp: Poly):
     """Destructure a loss poly into [(X, kind, weight atoms, coefficient)], or raise AnalysisError."""
     sites = []
@@ -118,6 +308,8 @@ def regression_sites(nf: NF, Lp: Poly):
         if not m or m["fn"] != "mean":
             raise AnalysisError(f"loss term `{mono[0][0][:80]}` is not a mean (unrecognised regression form)")
         inner = m["args"][0]
+        if len(inner.terms) != 1:
+            raise AnalysisError(f"loss term `{mono[0][0][:80]}` is not the mean of one product (unrecognised regression form)")
         (imono, ic), = inner.terms.items()
         err, weights = None, []
         for a, e in imono:
@@ -126,21 +318,27 @@ def regression_sites(nf: NF, Lp: Poly):
             if fn == "sq" and e == 1:
                 err = ("sq", am["args"][0], None)
             elif fn == "abs" and e == 2:
-                err = ("abs2", am["args"][0], None)
+                err = ("sq", am["args"][0], None)           # |x|^2 == x^2
             elif fn == "huber" and e == 1:
+                # optax.huber_loss(P, T, delta=1.0) read by the engine as huber(|P - T|)
                 ab = am["args"][0]
                 abm = nf.meta.get(ab.single_atom() or "")
+                dl = am["kws"].get("delta", Poly.const(1))
                 if abm and abm["fn"] == "abs":
-                    err = ("huber_abs", abm["args"][0], am["kws"].get("delta"))
+                    err = ("huber_abs", abm["args"][0], dl)
                 else:
-                    err = ("huber_signed", ab, am["kws"].get("delta"))
-            elif fn.endswith("losses.huber_loss") and e == 1:
+                    err = ("huber_signed", ab, dl)
+            elif fn == "huber_loss" and e == 1 and len(am["args"]) == 3 and not am["kws"]:
+                # optax.huber_loss(P, T, delta) with positional delta (takes |P - T| itself)
+                err = ("huber_abs", am["args"][0] - am["args"][1], am["args"][2])
+            elif fn.endswith("losses.huber_loss") and fn.startswith("rl_blox.") and e == 1 and am["args"]:
                 ab = am["args"][0]
                 abm = nf.meta.get(ab.single_atom() or "")
+                dl = am["args"][1] if len(am["args"]) > 1 else am["kws"].get("delta")
                 if abm and abm["fn"] == "abs":
-                    err = ("huber_abs", abm["args"][0], am["args"][1] if len(am["args"]) > 1 else None)
+                    err = ("huber_abs", abm["args"][0], dl)
                 else:
-                    err = ("huber_signed", ab, am["args"][1] if len(am["args"]) > 1 else None)
+                    err = ("huber_signed", ab, dl)
             else:
                 weights.append((a, e))
         if err is None:
@@ -158,6 +356,49 @@ def split_pt(nf: NF, X: Poly, theta: str):
         else:
             rest = rest + Poly({mono: c})
     return P, rest
+
+
+def _raw_prediction(nf, atom, theta):
+    """The atom is an output of the online module itself (a call of `theta` / of one of its heads, possibly indexed), not a function of one."""
+    for _ in range(6):
+        m = nf.meta.get(atom or "")
+        if m is None:
+            return False
+        fn = m["fn"]
+        if fn in ("subscript", "proj", "attr") and m["args"]:
+            atom = m["args"][0].single_atom()
+            continue
+        return bool(_MODCALL.fullmatch(fn)) and fn.lstrip("⊥").split(".")[0] == theta
+    return False
+
+
+def _signed_evidence(nf, X, theta):
+    """`huber(X)` with X not |..|: X is the signed error only when the online prediction itself enters it linearly; an X that is some other
+    function of the prediction (where / sqrt / maximum ... possibly another way of writing the absolute value) has not been read."""
+    P, _ = split_pt(nf, X, theta)
+    return bool(P.terms) and all(len(mono) == 1 and mono[0][1] == 1 and _raw_prediction(nf, mono[0][0], theta) for mono in P.terms)
+
+
+def _kind(S, nf, s, theta, tag):
+    if s["kind"] == "huber_signed" and not _signed_evidence(nf, s["X"], theta):
+        return S.undecided(f"{tag}:kind", f"Huber of `{s['X'].canon()[:80]}`, which is neither |P - T| nor a signed error P - T")
+    return s["kind"]
+
+
+def _prediction(S, nf, tag, X, theta):
+    """(sign, P, rest) for X = sign * (P - T) when exactly the prediction depends differentiably on theta; None when violated / undecided."""
+    P, rest = split_pt(nf, X, theta)
+    key = f"{tag}:single-differentiable-term"
+    if not P.terms:
+        return S.undecided(key, f"no term of the regression depends differentiably on `{theta}` as far as the normal form shows")
+    if len(P.terms) == 1 and list(P.terms.values())[0] not in (1, -1):
+        return S.undecided(key, f"the prediction enters the error scaled: `{P.canon()[:80]}`")
+    okp = len(P.terms) == 1
+    r = S.ob("R4-stop-gradient", key, okp, f"terms depending differentiably on `{theta}`: {P.canon()[:120]}",
+             f"besides the prediction, the target side depends differentiably on `{theta}` (missing stop_gradient): its gradient is not the documented semi-gradient", read=[P])
+    if r is not True:
+        return None
+    return list(P.terms.values())[0], P, rest
 
 
 def target_identity(T: Poly, gamma="gamma"):
@@ -180,86 +421,198 @@ def target_identity(T: Poly, gamma="gamma"):
     return True, gp[1], ""
 
 
-def _loss_env(fn, spec):
-    env = {}
-    for p in param_names(fn):
-        env[p] = Poly.atom(p, {p}, {p})
-    return env
+def _const_call(fn, vals):
+    """Value of a call whose arguments are all constants, for the few functions a mask is usually written with; None otherwise."""
+    try:
+        if fn == "logical_not" and len(vals) == 1:
+            return Fraction(0 if vals[0] != 0 else 1)
+        if fn in ("minimum", "min") and len(vals) >= 2:
+            return min(vals)
+        if fn in ("maximum", "max") and len(vals) >= 2:
+            return max(vals)
+        if fn == "abs" and len(vals) == 1:
+            return abs(vals[0])
+        if fn == "clip" and len(vals) == 3:
+            x, lo = (vals[0], vals[1])          # the engine orders the first two arguments; clip is symmetric in them (max(x, lo))
+            return min(max(x, lo), vals[2])
+        if fn in ("Eq", "NotEq", "Lt", "LtE") and len(vals) == 2:
+            return Fraction(int({"Eq": vals[0] == vals[1], "NotEq": vals[0] != vals[1], "Lt": vals[0] < vals[1], "LtE": vals[0] <= vals[1]}[fn]))
+    except Exception:
+        return None
+    return None
+
+
+def _at(nf, p: Poly, leaf: str, c: int, depth: int = 0):
+    """``p`` with the leaf atom set to the constant c - also inside the arguments of the calls it is built from (a `where` whose condition becomes
+    a constant selects its branch, logical_not / comparisons / clip of constants are evaluated).  None where an atom that depends on the leaf
+    cannot be rebuilt from recorded arguments (subscripts, projections, opaque values)."""
+    if depth > 10:
+        return None
+    if p.elems is not None:
+        es = [_at(nf, e, leaf, c, depth + 1) for e in p.elems]
+        if any(e is None for e in es):
+            return None
+        q = Poly.atom("(" + ", ".join(x.canon() for x in es) + ")")
+        q.elems = es
+        return q
+    out = Poly({})
+    for mono, k in p.terms.items():
+        term = Poly.const(k)
+        for a, e in mono:
+            if a.lstrip("⊥") == leaf:
+                v = Poly.const(c)
+            elif leaf not in nf.atom_deps(a):
+                v = Poly({((a, 1),): Fraction(1)})
+            else:
+                m = nf.meta.get(a)
+                fn = (m or {}).get("fn", "")
+                if not fn or fn in ("subscript", "proj", "attr", "T") or m.get("record") or m.get("at"):
+                    return None
+                args = [_at(nf, q, leaf, c, depth + 1) for q in m["args"]]
+                kws = {kk: _at(nf, q, leaf, c, depth + 1) for kk, q in m["kws"].items()}
+                if any(x is None for x in args) or any(x is None for x in kws.values()):
+                    return None
+                if fn in ("where", "select") and len(args) == 3 and not kws and args[0].elems is None and args[0].is_const():
+                    v = args[1] if args[0].const_value() != 0 else args[2]
+                elif fn == "sq" and len(args) == 1:
+                    v = nf.square(args[0])
+                elif not kws and args and all(x.elems is None and x.is_const() for x in args) and _const_call(fn, [x.const_value() for x in args]) is not None:
+                    v = Poly.const(_const_call(fn, [x.const_value() for x in args]))
+                elif fn in ("mean", "sum"):
+                    v = nf._libcall(fn, args, kws, None)
+                else:
+                    v = nf._mkcall(fn, args, kws, frozenset(m["deps"]) - {leaf}, frozenset(m["gdeps"]) - {leaf})
+            term = term * v.pow(e)
+        out = out + term
+    return out
+
+
+def _target(S, nf, tag, T):
+    """B for T == R + (1 - D) * gamma * B, None when violated / undecided.  The identity is polynomial in the leaves R, D, gamma: where one of them
+    also sits inside an atom (`where(terminated, ..)`, `logical_not(terminated)`) a failed identity says nothing."""
+    ok1, B, why1 = target_identity(T)
+    key = f"{tag}:r+(1-d)*gamma*B"
+    if not ok1:
+        a = _nested(nf, T, (ROLE["R"], ROLE["D"], "gamma"))
+        if a is not None and _nested(nf, T, (ROLE["D"],)) is not None:
+            # the termination flag sits inside calls: read the target at terminated = 1 and at terminated = 0 (the statement of the property itself)
+            R, D = ROLE["R"], ROLE["D"]
+            T1, T0 = _at(nf, T, D, 1), _at(nf, T, D, 0)
+            T1, T0 = (nf.unfreeze(T1) if T1 is not None else None), (nf.unfreeze(T0) if T0 is not None else None)
+            if T1 is not None and T0 is not None and D not in nf.deps_of(T1) and D not in nf.deps_of(T0) and _unread(nf, T1, T0) is None \
+                    and _nested(nf, T1, (R, "gamma")) is None and _nested(nf, T0, (R, "gamma")) is None:
+                keep = T1 - Poly.atom(R)
+                if not keep.is_zero():
+                    S.ob("R1-target-identity", key, False, f"T = {T.canon()[:140]}", f"a terminated transition is regressed onto r + `{keep.canon()[:100]}`: it still carries a bootstrap term", read=[T])
+                    return None
+                gp = (T0 - Poly.atom(R)).degree_split("gamma")
+                if set(gp) == {1}:
+                    S.ob("R1-target-identity", key, True, f"T = {T.canon()[:140]}")
+                    return gp[1]
+        if a is not None:
+            return S.undecided(key, f"reward / termination / gamma enter the target inside `{a[:80]}`, not as polynomial factors")
+    r = S.ob("R1-target-identity", key, ok1, f"T = {T.canon()[:140]}", why1, read=[T])
+    return B if r is True else None
 
 
 def analyse_loss(ck, repo, nf: NF, qual: str, spec: dict, env_extra=None, via=None):
     fn = repo.func(qual)
     mi = fn._module
-    where = loc(mi, fn)
+    S = _Site(ck, nf, qual, loc(mi, fn))
     theta = spec["theta"]
-    params = set(param_names(fn))
+    env, ren = _roles_env(repo, fn, qual)
+    params = {p.single_atom() for p in env.values()}
     ck.need(theta in params and "batch" in params and "gamma" in params, f"{qual}: parameters changed (anchor vanished): {sorted(params)}")
-    for t in spec["targets"]:
-        ck.need(t in params, f"{qual}: target-role parameter `{t}` vanished")
-    ret = nf.return_poly(qual, _loss_env(fn, spec))
-    Lp = ret.elems[0] if ret.elems is not None else ret
+    for t in spec["targets"] + ([spec["weight"]] if spec.get("weight") else []) + (["alpha", "policy"] if spec.get("entropy") else []):
+        ck.need(t in params, f"{qual}: role parameter `{t}` vanished")
+    ret = _ret(nf, qual, env)
+    Lp = _loss_of(nf, ret)
     sites = regression_sites(nf, Lp)
-    ck.ob("R5-regression-form", qual, "site-count", len(sites) == spec["n_sites"], f"{len(sites)} regression site(s): {[s['kind'] for s in sites]}",
-          "" if len(sites) == spec["n_sites"] else f"documented: {spec['n_sites']} (one per critic head)", where)
+    S.ob("R5-regression-form", "site-count", len(sites) == spec["n_sites"], f"{len(sites)} regression site(s): {[s['kind'] for s in sites]}",
+         f"documented: {spec['n_sites']} (one per critic head)", read=[Lp])
     Ts = []
     for i, s in enumerate(sites):
-        tag = f"site{i}"
-        okk = s["kind"] in spec["kind"]
-        why = ""
-        if not okk:
-            why = f"regression kind `{s['kind']}` instead of {spec['kind']}" + (": Huber applied to a signed error (the quadratic/linear switch then depends on the sign)" if s["kind"] == "huber_signed" else "")
-        ck.ob("R5-regression-form", qual, f"{tag}:kind", okk, f"{s['kind']} of X = {s['X'].canon()[:100]}", why, where)
-        okc = s["coef"] == 1
-        ck.ob("R5-regression-form", qual, f"{tag}:unit-coefficient", okc, f"coefficient {s['coef']}", "" if okc else "the regression term is scaled: the loss value differs from the documented one", where)
-        wnames = [a for a, e in s["weights"]]
-        want_w = [spec["weight"]] if spec.get("weight") else []
-        ck.ob("R5-regression-form", qual, f"{tag}:weights", wnames == want_w, f"per-sample weights {wnames}", "" if wnames == want_w else f"documented weights: {want_w}", where)
-        P, rest = split_pt(nf, s["X"], theta)
-        _readable_prediction(nf, P, qual, theta)
-        # exactly one prediction term with coefficient +-1
-        okp = len(P.terms) == 1 and list(P.terms.values())[0] in (1, -1)
-        ck.ob("R4-stop-gradient", qual, f"{tag}:single-differentiable-term", okp, f"terms depending differentiably on `{theta}`: {P.canon()[:120]}",
-              "" if okp else f"besides the prediction, the target side depends differentiably on `{theta}` (missing stop_gradient): its gradient is not the documented semi-gradient", where)
-        if not okp:
-            continue
-        sign = list(P.terms.values())[0]
-        T = nf.unfreeze(rest.scale(-1) if sign == 1 else rest)
-        Pn = P.scale(sign)
-        Ts.append(T)
-        # R3 prediction
-        pd = nf.deps_of(Pn)
-        need = {ROLE["O"], ROLE["A"]}
-        bad_t = [t for t in spec["targets"] if t in pd]
-        okr = need <= pd and not bad_t and ROLE["N"] not in pd
-        ck.ob("R3-prediction", qual, f"{tag}:prediction-inputs", okr, f"P = {Pn.canon()[:100]}",
-              "" if okr else ("prediction uses target module(s) " + str(bad_t) if bad_t else "prediction does not depend on (observation, action) only"), where)
-        # R1
-        ok1, B, why1 = target_identity(T)
-        ck.ob("R1-target-identity", qual, f"{tag}:r+(1-d)*gamma*B", ok1, f"T = {T.canon()[:140]}", why1, where)
-        if not ok1:
-            continue
-        bd = nf.deps_of(B)
-        okb = ROLE["N"] in bd and not ({ROLE["O"], ROLE["R"], ROLE["D"]} & bd)
-        ck.ob("R2-bootstrap-kind", qual, f"{tag}:bootstrap-inputs", okb, f"B depends on {sorted(d for d in bd if d.startswith('batch'))}",
-              "" if okb else "the bootstrap must depend on the successor observation and not on observation / reward / termination", where)
-        cen = census(nf, B, params)
-        okc2 = cen == sorted(spec["census"])
-        ck.ob("R2-bootstrap-kind", qual, f"{tag}:census", okc2, f"B = {B.canon()[:140]}",
-              "" if okc2 else f"bootstrap calls {cen} differ from the documented kind {sorted(spec['census'])}", where)
-        if spec.get("entropy"):
-            # B = Q' - alpha * log pi : coefficient structure
-            al = B.degree_split("alpha")
-            oke = set(al) == {0, 1} and len(al[1].terms) == 1 and list(al[1].terms.values())[0] == -1 and "log_probability" in al[1].canon() and "log_probability" not in al[0].canon()
-            ck.ob("R2-bootstrap-kind", qual, f"{tag}:entropy-term", oke, f"B = {al.get(0, Poly({})).canon()[:60]} + alpha * ({al.get(1, Poly({})).canon()[:60]})",
-                  "" if oke else "documented bootstrap is min Q'(o', a') - alpha * log pi(a'|o')", where)
-        else:
-            lead_ok = len(B.terms) == 1 and list(B.terms.values())[0] == 1
-            ck.ob("R2-bootstrap-kind", qual, f"{tag}:unit-bootstrap", lead_ok, f"B = {B.canon()[:100]}", "" if lead_ok else "the bootstrap carries a stray factor or extra term", where)
+        _analyse_site(S, nf, spec, params, theta, f"site{i}", s, Ts)
     if len(Ts) == 2:
-        same = Ts[0] == Ts[1]
-        ck.ob("R5-regression-form", qual, "shared-target", same, "both critic heads regress onto the same target", "" if same else "the two heads use different targets", where)
-    # auxiliary outputs
+        S.ob("R5-regression-form", "shared-target", Ts[0] == Ts[1], "both critic heads regress onto the same target", "the two heads use different targets", read=Ts)
+    S.close()
     return sites, Ts
+
+
+def _analyse_site(S, nf, spec, params, theta, tag, s, Ts):
+    kind = _kind(S, nf, s, theta, tag)
+    if kind is None:
+        return          # the error term itself was not read: nothing of this site can be split into prediction and target
+    okk = kind in spec["kind"]
+    why = f"regression kind `{kind}` instead of {spec['kind']}" + (": Huber applied to a signed error (the quadratic/linear switch then depends on the sign)" if kind == "huber_signed" else "")
+    S.ob("R5-regression-form", f"{tag}:kind", okk, f"{kind} of X = {s['X'].canon()[:100]}", why, read=[s["X"]])
+    okc = s["coef"] == 1
+    S.ob("R5-regression-form", f"{tag}:unit-coefficient", okc, f"coefficient {s['coef']}", "the regression term is scaled: the loss value differs from the documented one")
+    got_w = sorted((a.lstrip("⊥"), e) for a, e in s["weights"])
+    want_w = [(spec["weight"], 1)] if spec.get("weight") else []
+    if got_w != want_w and any(not _LEAF.fullmatch(a) for a, _e in got_w):
+        S.undecided(f"{tag}:weights", f"per-sample factor {[a[:60] for a, _e in got_w]} is not a plain argument")
+    else:
+        S.ob("R5-regression-form", f"{tag}:weights", got_w == want_w, f"per-sample weights {[a if e == 1 else f'{a}^{e}' for a, e in got_w]}", f"documented weights: {[a for a, _e in want_w]}")
+    pr = _prediction(S, nf, tag, s["X"], theta)
+    if pr is None:
+        return
+    sign, P, rest = pr
+    T = nf.unfreeze(rest.scale(-1) if sign == 1 else rest)
+    Pn = P.scale(sign)
+    Ts.append(T)
+    # R3 prediction
+    pd = nf.deps_of(Pn)
+    bad_t = [t for t in spec["targets"] if t in pd]
+    okr = {ROLE["O"], ROLE["A"]} <= pd and not bad_t and ROLE["N"] not in pd
+    if not okr and not bad_t and ROLE["N"] not in pd and "batch" in pd:
+        S.undecided(f"{tag}:prediction-inputs", f"the batch enters the prediction `{Pn.canon()[:80]}` as a whole, its fields are not visible")
+    elif not okr and not _raw_prediction(nf, Pn.single_atom(), theta):
+        S.undecided(f"{tag}:prediction-inputs", f"the differentiable term `{Pn.canon()[:80]}` is not an output of `{theta}` itself but a function of one")
+    else:
+        S.ob("R3-prediction", f"{tag}:prediction-inputs", okr, f"P = {Pn.canon()[:100]}",
+             ("prediction uses target module(s) " + str(bad_t)) if bad_t else "prediction does not depend on (observation, action) only", read=[Pn])
+    # R1
+    B = _target(S, nf, tag, T)
+    if B is None:
+        return
+    bd = nf.deps_of(B)
+    bad = sorted({ROLE["O"], ROLE["R"]} & bd)
+    shown = f"B depends on {sorted(d for d in bd if d.startswith('batch'))}"
+    if not bad and (ROLE["D"] in bd or ROLE["N"] not in bd):
+        S.undecided(f"{tag}:bootstrap-inputs", f"{shown}: the successor observation is not visible in it / it reads the termination flag again")
+    else:
+        S.ob("R2-bootstrap-kind", f"{tag}:bootstrap-inputs", not bad, shown, "the bootstrap must depend on the successor observation and not on observation / reward", read=[B])
+    cen, unknown = census(nf, B, params)
+    v = census_verdict(cen, unknown, spec["census"], params)
+    if isinstance(v, str):
+        S.undecided(f"{tag}:census", v)
+    else:
+        S.ob("R2-bootstrap-kind", f"{tag}:census", v, f"B = {B.canon()[:140]}", f"bootstrap calls {cen} differ from the documented kind {sorted(spec['census'])}", read=[B])
+    if spec.get("entropy"):
+        _entropy_term(S, nf, tag, B)
+    else:
+        lead_ok = len(B.terms) == 1 and list(B.terms.values())[0] == 1
+        S.ob("R2-bootstrap-kind", f"{tag}:unit-bootstrap", lead_ok, f"B = {B.canon()[:100]}", "the bootstrap carries a stray factor or extra term", read=[B])
+
+
+def _entropy_term(S, nf, tag, B):
+    """B = Q' - alpha * log pi(a'|o'): alpha is a polynomial factor of exactly the log-probability term, with coefficient -1."""
+    key = f"{tag}:entropy-term"
+    al = B.degree_split("alpha")
+
+    def logp(p):
+        return [a for a in p.atoms() if (nf.meta.get(a) or {}).get("fn", "").lstrip("⊥") == "policy.log_probability"]
+    a0, a1 = al.get(0, Poly({})), al.get(1, Poly({}))
+    shown = f"B = {a0.canon()[:60]} + alpha * ({a1.canon()[:60]})"
+    one = len(a1.terms) == 1 and len(list(a1.terms)[0]) == 1 and list(a1.terms)[0][0][1] == 1 and bool(logp(a1))     # alpha * c * log pi
+    oke = set(al) == {0, 1} and one and list(a1.terms.values())[0] == -1 and not logp(a0)
+    nested = _nested(nf, B, ("alpha",))
+    if not oke and nested is not None:
+        return S.undecided(key, f"alpha enters the bootstrap inside `{nested[:80]}`")
+    if not oke and not (set(al) == {0} or (al and max(al) >= 2) or logp(a0) or (set(al) == {0, 1} and one)):
+        return S.undecided(key, f"the alpha-dependent part `{a1.canon()[:80]}` is not a multiple of the log-probability of the policy")
+    return S.ob("R2-bootstrap-kind", key, oke, shown, "documented bootstrap is min Q'(o', a') - alpha * log pi(a'|o')", read=[B])
 
 
 def _readable_prediction(nf, P, site, theta):
@@ -267,9 +620,9 @@ def _readable_prediction(nf, P, site, theta):
     opaque comprehension, means the prediction is not visible here (undecided), not that the semi-gradient is wrong."""
     if not P.terms:
         raise AnalysisError(f"{site}: no term of the regression depends differentiably on `{theta}` as far as the normal form shows (unrecognised form)")
-    for a in P.atoms():
-        if "⟦" in a or nf.meta.get(a, {}).get("record") or re.match(r"(⊥)?rl_blox\.[\w.]+\._?[A-Z]\w*\(", a):
-            raise AnalysisError(f"{site}: the differentiable part `{a[:80]}` is an unread value (record / comprehension): unrecognised form")
+    u = _unread(nf, P)
+    if u is not None:
+        raise AnalysisError(f"{site}: the differentiable part `{u[:80]}` is an unread value (record / comprehension): unrecognised form")
 
 
 def run(ck, repo: Repo, tier: str):
@@ -279,65 +632,112 @@ def run(ck, repo: Repo, tier: str):
     nf.track_sg = True
     # Batch field order from ReplayBuffer.__init__
     order = _batch_order(repo)
-    ck.ob("R7-caller-roles", "rl_blox.blox.replay_buffer.ReplayBuffer.__init__", "batch-field-order", order[:5] == ["observation", "action", "reward", "next_observation", "termination"],
-          f"default keys {order}", "" if order[:5] == ["observation", "action", "reward", "next_observation", "termination"] else "the positional roles of a sampled batch changed", "rl_blox/blox/replay_buffer.py")
+    fields = ["observation", "action", "reward", "next_observation", "termination"]
+    if order[:5] != fields and sorted(order[:5]) != sorted(fields):
+        raise AnalysisError(f"ReplayBuffer.__init__: the default keys {order} do not carry the documented field names, the positional roles of a batch cannot be read (unrecognised form)")
+    ck.ob("R7-caller-roles", "rl_blox.blox.replay_buffer.ReplayBuffer.__init__", "batch-field-order", order[:5] == fields,
+          f"default keys {order}", "" if order[:5] == fields else "the positional roles of a sampled batch changed", "rl_blox/blox/replay_buffer.py")
     n = 0
+    nf.field_order = list(order)     # the losses of the replay-buffer loops may read the sampled Batch by field name: batch.reward == batch[2]
     for q, spec in SPEC.items():
         ck.guard(analyse_loss, ck, repo, nf, q, spec)
         n += 1
+    nf.field_order = None
     ck.guard(_double_q, ck, repo, nf)
     ck.guard(_td7, ck, repo, nf)
     ck.guard(_mrq, ck, repo, nf)
     ck.guard(_sale, ck, repo, nf)
     ck.floor("critic-losses", n + 2, 10)
-    ck.guard(_callers, ck, repo)
+    ck.guard(_callers, ck, repo, order)
+
+
+def _string_list(mi, e, depth=0):
+    """The strings of a list / tuple display, also behind list(..) / tuple(..) and a module-level constant; None otherwise."""
+    if isinstance(e, (ast.List, ast.Tuple)) and e.elts and all(isinstance(x, ast.Constant) and isinstance(x.value, str) for x in e.elts):
+        return [x.value for x in e.elts]
+    if isinstance(e, ast.Call) and isinstance(e.func, ast.Name) and e.func.id in ("list", "tuple") and len(e.args) == 1 and not e.keywords:
+        return _string_list(mi, e.args[0], depth + 1)
+    if isinstance(e, ast.Name) and depth < 4:
+        d = mi.defs.get(e.id)
+        if isinstance(d, (ast.Assign, ast.AnnAssign)) and d.value is not None:
+            return _string_list(mi, d.value, depth + 1)
+    return None
 
 
 def _batch_order(repo):
-    fn = repo.method("rl_blox.blox.replay_buffer.ReplayBuffer", "__init__")[1]
-    for n in ast.walk(fn):
-        if isinstance(n, ast.Assign) and isinstance(n.targets[0], ast.Name) and n.targets[0].id == "keys" and isinstance(n.value, (ast.List, ast.Tuple)):
-            return [e.value for e in n.value.elts if isinstance(e, ast.Constant)]
+    cq = "rl_blox.blox.replay_buffer.ReplayBuffer"
+    owner, fn = repo.method(cq, "__init__")
+    mi = repo.cls(owner)._module
+    _env, ren = _roles_env(repo, fn, f"{cq}.__init__")
+    kp = _actual(ren, "keys")         # the parameter that carries the field names (recorded name `keys`)
+    found = [s for n in ast.walk(fn) if isinstance(n, ast.Assign) and len(n.targets) == 1 and isinstance(n.targets[0], ast.Name) and n.targets[0].id == kp
+             for s in [_string_list(mi, n.value)] if s is not None]
+    if len(found) == 1:
+        return found[0]
     raise AnalysisError("ReplayBuffer.__init__: default key list not found (anchor vanished)")
+
+
+# ---- the clipped double-Q network ---------------------------------------------------------------------------------------
+def _head_call(nf, q: Poly):
+    """('self.q1' | 'self.q2', argument signature) when q is exactly one call of a head."""
+    m = nf.meta.get(q.single_atom() or "")
+    if m and m["fn"] in ("self.q1", "self.q2"):
+        return m["fn"], (tuple(x.canon() for x in m["args"]), tuple(sorted((k, v.canon()) for k, v in m["kws"].items())))
+    return None
 
 
 def _double_q(ck, repo, nf):
     cq = "rl_blox.blox.double_qnet.ContinuousClippedDoubleQNet"
-    for meth, want in (("__call__", "minimum(self.q1(**kwargs, *args), self.q2(**kwargs, *args))"), ("mean", None)):
-        m = repo.method(cq, meth, inherited=False)
+    groups = []
+    for meth in ("__call__", "mean"):
+        m = repo.method(cq, meth)       # follows the inheritance chain: the method may live in a base class / mixin
         ck.need(m is not None, f"{cq}.{meth} not found")
-        fn = m[1]
+        owner, fn = m
+        fn._module = repo.cls(owner)._module
+        S = _Site(ck, nf, f"{cq}.{meth}", loc(fn._module, fn))
+        groups.append(S)
         rets = [x for x in ast.walk(fn) if isinstance(x, ast.Return)]
-        ck.need(len(rets) == 1, f"{cq}.{meth}: expected one return")
+        ck.need(len(rets) == 1 and rets[0].value is not None, f"{cq}.{meth}: expected one return")
         v = rets[0].value
-        fn._module = repo.cls(cq)._module
-        cfgq = nf.cfg_of(fn)
-        retn = next(n_ for n_ in cfgq.nodes if n_.kind == "stmt" and n_.ast is rets[0])
-        canon_v = nf.poly(v, Scope(cfgq, fn._module, {}, cq), retn.id).canon()
+        sc = Scope(nf.cfg_of(fn), fn._module, {}, f"{owner}.{meth}")
+        p = nf.poly(v, sc, sc.cfg.node_of(rets[0]).id)
+        pm = nf.meta.get(p.single_atom() or "") or {}
+        pair = [_head_call(nf, a) for a in pm.get("args", [])] if pm.get("fn") in ("minimum", "maximum") and len(pm.get("args", [])) == 2 and not pm.get("kws") else None
+        both = pair is not None and None not in pair and {pair[0][0], pair[1][0]} == {"self.q1", "self.q2"} and pair[0][1] == pair[1][1]
+        heads_only = bool(p.terms) and all(len(mono) == 1 and _head_call(nf, Poly({mono: Fraction(1)})) is not None for mono in p.terms)      # a linear combination of head outputs
         if meth == "__call__":
-            want_v = nf.poly(parse_expr("jnp.minimum(self.q1(*args, **kwargs), self.q2(*args, **kwargs))"), Scope(None, fn._module, {}, cq), None).canon()
-            ok = canon_v == want_v
-            ck.ob("R2-bootstrap-kind", f"{cq}.__call__", "clipped-min", ok, f"return {short(v)}", "" if ok else "the clipped double-Q value must be minimum(q1(x), q2(x))", loc(fn._module, fn))
+            ok = both and pm["fn"] == "minimum"
+            if not ok and not (pair is not None and None not in pair) and not heads_only:
+                S.undecided("clipped-min", f"`{p.canon()[:100]}` is neither minimum / maximum of the two heads nor a combination of their outputs")
+            else:
+                S.ob("R2-bootstrap-kind", "clipped-min", ok, f"return {short(v)}", "the clipped double-Q value must be minimum(q1(x), q2(x))", read=[p])
         else:
-            sc = Scope(nf.cfg_of(fn), fn._module, {}, f"{cq}.mean")
-            p = nf.poly(v, sc, sc.cfg.node_of(rets[0]).id)
-            txt = p.canon()
-            ok = txt.count("1/2*") == 2 and "self.q1(" in txt and "self.q2(" in txt and len(p.terms) == 2
-            ck.ob("R2-bootstrap-kind", f"{cq}.mean", "mean-of-heads", ok, f"return {txt[:90]}", "" if ok else "mean must be 0.5 * (q1(x) + q2(x))", loc(fn._module, fn))
+            hs = [_head_call(nf, Poly({mono: Fraction(1)})) for mono in p.terms] if heads_only else []
+            ok = heads_only and len(hs) == 2 and {h[0] for h in hs} == {"self.q1", "self.q2"} and hs[0][1] == hs[1][1] and all(c == Fraction(1, 2) for c in p.terms.values())
+            if not ok and not heads_only and not (pair is not None and None not in pair):
+                S.undecided("mean-of-heads", f"`{p.canon()[:100]}` is not a combination of the outputs of the two heads")
+            else:
+                S.ob("R2-bootstrap-kind", "mean-of-heads", ok, f"return {p.canon()[:90]}", "mean must be 0.5 * (q1(x) + q2(x))", read=[p])
+    und = [u for S in groups for u in S.und]
+    if und:
+        raise AnalysisError("; ".join(und))
 
 
+# ---- TD7 / MR.Q / SALE --------------------------------------------------------------------------------------------------
 def _td7(ck, repo, nf):
     q = "rl_blox.algorithm.td7.td7_update_critic"
     fn = repo.func(q)
     mi = fn._module
-    where = loc(mi, fn)
+    S = _Site(ck, nf, q, loc(mi, fn))
     roles = {"observation": "O", "action": "A", "reward": "R", "next_observation": "N", "terminated": "D"}
-    params = param_names(fn)
+    env, ren = _roles_env(repo, fn, q)
+    params = [p.single_atom() for p in env.values()]
     for p in list(roles) + ["critic", "critic_target", "fixed_embedding", "fixed_embedding_target", "next_action", "gamma", "q_min", "q_max", "min_priority"]:
         ck.need(p in params, f"{q}: parameter `{p}` vanished")
-    env = {p: Poly.atom(p, {p}, {p}) for p in params}
-    for p, r in roles.items():
-        env[p] = Poly.atom(ROLE[r], {ROLE[r]}, {ROLE[r]})
+    for a, pa in list(env.items()):
+        r = roles.get(pa.single_atom())
+        if r is not None:
+            env[a] = Poly.atom(ROLE[r], {ROLE[r]}, {ROLE[r]})
     sites = [s for s in grad_sites(repo, fn, mi)]
     ck.need(len(sites) == 1, f"{q}: expected one value_and_grad site")
     s = sites[0]
@@ -347,131 +747,200 @@ def _td7(ck, repo, nf):
     sc = nf.scope_for(q, env)
     at = sc.cfg.node_of(s["app"]).id
     lp = positional_params(lfn)
+    if any(isinstance(a, ast.Starred) for a in s["app"].args) or any(k.arg is None for k in s["app"].keywords) or len(s["app"].args) > len(lp) or s["argnums"][0] >= len(lp):
+        raise AnalysisError(f"{q}: application `{short(s['app'], 80)}` of the differentiated loss cannot be bound to its signature (unrecognised form)")
     lenv = {}
-    for i, a in enumerate(s["app"].args):
-        lenv[lp[i]] = nf.poly(a, sc, at)
+    for k, a in bind_call(lfn, s["app"]).items():        # positional and keyword arguments, by the loss's signature
+        lenv[k] = nf.poly(a, sc, at)
     theta = lp[s["argnums"][0]]
-    ret = nf.return_poly(lq, lenv)
-    Lp = ret.elems[0] if ret.elems is not None else ret
+    ck.need(theta in lenv, f"{q}: differentiated argument `{theta}` is not passed")
+    ret = _ret(nf, lq, lenv)
+    Lp = _loss_of(nf, ret)
     rs = regression_sites(nf, Lp)
-    ck.ob("R5-regression-form", q, "site-count", len(rs) == 2, f"{len(rs)} regression sites {[x['kind'] for x in rs]}", "" if len(rs) == 2 else "documented: one Huber term per critic head", where)
+    S.ob("R5-regression-form", "site-count", len(rs) == 2, f"{len(rs)} regression sites {[x['kind'] for x in rs]}", "documented: one Huber term per critic head", read=[Lp])
     theta_atom = lenv[theta].single_atom()
+    ck.need(theta_atom is not None, f"{q}: differentiated argument is not a plain object")
     Ts = []
     for i, x in enumerate(rs):
         tag = f"site{i}"
-        okk = x["kind"] == "huber_abs"
-        ck.ob("R5-regression-form", q, f"{tag}:kind", okk, f"{x['kind']} delta={x['delta'].canon() if x['delta'] is not None else None}",
-              "" if okk else ("Huber applied to a signed error: quadratic instead of linear for large negative errors" if x["kind"] == "huber_signed" else "documented regression is Huber(|P - T|, min_priority)"), where)
-        okd = x["delta"] is not None and x["delta"].canon() == "min_priority"
-        ck.ob("R5-regression-form", q, f"{tag}:delta", okd, f"delta = {x['delta'].canon() if x['delta'] is not None else None}", "" if okd else "Huber threshold must be min_priority", where)
-        ck.ob("R5-regression-form", q, f"{tag}:unit-coefficient", x["coef"] == 1 and not x["weights"], f"coefficient {x['coef']}, weights {x['weights']}", "" if (x["coef"] == 1 and not x["weights"]) else "scaled / weighted regression term", where)
-        P, rest = split_pt(nf, x["X"], theta_atom)
-        _readable_prediction(nf, P, q, theta_atom)
-        okp = len(P.terms) == 1 and list(P.terms.values())[0] in (1, -1)
-        ck.ob("R4-stop-gradient", q, f"{tag}:single-differentiable-term", okp, f"terms differentiable in `{theta_atom}`: {P.canon()[:100]}", "" if okp else "target side depends differentiably on the critic", where)
-        if not okp:
+        dtxt = x["delta"].canon() if x["delta"] is not None else None
+        kind = _kind(S, nf, x, theta_atom, tag)
+        if kind is None:
             continue
-        sign = list(P.terms.values())[0]
+        okk = kind == "huber_abs"
+        S.ob("R5-regression-form", f"{tag}:kind", okk, f"{kind} delta={dtxt}",
+             "Huber applied to a signed error: quadratic instead of linear for large negative errors" if kind == "huber_signed" else "documented regression is Huber(|P - T|, min_priority)", read=[x["X"]])
+        okd = dtxt == "min_priority"
+        S.ob("R5-regression-form", f"{tag}:delta", okd, f"delta = {dtxt}", "Huber threshold must be min_priority", read=[x["delta"]])
+        okw = x["coef"] == 1 and not x["weights"]
+        S.ob("R5-regression-form", f"{tag}:unit-coefficient", okw, f"coefficient {x['coef']}, weights {x['weights']}", "scaled / weighted regression term", read=[Poly.atom(a) for a, _e in x["weights"]])
+        pr = _prediction(S, nf, tag, x["X"], theta_atom)
+        if pr is None:
+            continue
+        sign, P, rest = pr
         T = nf.unfreeze(rest.scale(-1) if sign == 1 else rest)
         Ts.append(T)
         pd = nf.deps_of(P)
-        okr = {ROLE["O"], ROLE["A"]} <= pd and "critic_target" not in pd and "fixed_embedding_target" not in pd and "fixed_embedding" in pd and ROLE["N"] not in pd
-        ck.ob("R3-prediction", q, f"{tag}:prediction-inputs", okr, f"P = {P.canon()[:110]}", "" if okr else "prediction must be critic.q_i(o||a, zsa, zs) with (zsa, zs) from the fixed embedding of (o, a)", where)
-        ok1, B, why1 = target_identity(T)
-        ck.ob("R1-target-identity", q, f"{tag}:r+(1-d)*gamma*B", ok1, f"T = {T.canon()[:140]}", why1, where)
-        if not ok1:
+        wrong = sorted(({"critic_target", "fixed_embedding_target", ROLE["N"]} & pd))
+        okr = {ROLE["O"], ROLE["A"]} <= pd and not wrong and "fixed_embedding" in pd
+        if not okr and not _raw_prediction(nf, P.scale(sign).single_atom(), theta_atom):
+            S.undecided(f"{tag}:prediction-inputs", f"the differentiable term `{P.canon()[:80]}` is not an output of the critic itself but a function of one")
             continue
-        cen = census(nf, B, set(params))
-        want = sorted(["clip <- {N}", "concat(axis=-1) <- {N}", "critic_target <- {N}", "fixed_embedding_target <- {N}", "fixed_embedding_target <- {N}"])
-        ck.ob("R2-bootstrap-kind", q, f"{tag}:census", cen == want, f"B = {B.canon()[:150]}", "" if cen == want else f"bootstrap calls {cen} differ from documented {want}", where)
+        S.ob("R3-prediction", f"{tag}:prediction-inputs", okr, f"P = {P.canon()[:110]}", "prediction must be critic.q_i(o||a, zsa, zs) with (zsa, zs) from the fixed embedding of (o, a)", read=[P])
+        B = _target(S, nf, tag, T)
+        if B is None:
+            continue
+        cen, unknown = census(nf, B, set(params))
         bm = nf.meta.get(B.single_atom() or "")
-        okclip = bool(bm) and bm["fn"] == "clip" and len(bm["args"]) == 3 and bm["args"][2].canon() == "q_max" and "q_min" in [a.canon() for a in bm["args"][:2]]
-        ck.ob("R2-bootstrap-kind", q, f"{tag}:value-clip", okclip, "clip(Q', q_min, q_max)", "" if okclip else "documented bootstrap is the target value clipped to [q_min, q_max] with unit coefficient", where)
+        okclip = bool(bm) and bm["fn"] == "clip" and len(bm["args"]) == 3 and not bm["kws"] and bm["args"][2].canon() == "q_max" and "q_min" in [a.canon() for a in bm["args"][:2]]
+        if not okclip and unknown:
+            S.undecided(f"{tag}:value-clip", f"the bootstrap contains `{str(unknown[0])[:60]}`, which this rule does not read")
+        else:
+            S.ob("R2-bootstrap-kind", f"{tag}:value-clip", okclip, f"B = {B.canon()[:100]}", "documented bootstrap is the target value clipped to [q_min, q_max] with unit coefficient", read=[B])
+        want = ["clip <- {N}", "concat(axis=1) <- {N}", "critic_target <- {N}", "fixed_embedding_target <- {N}"]
+        v = census_verdict(cen, unknown, want, set(params))
+        if isinstance(v, str):
+            S.undecided(f"{tag}:census", v)
+        else:
+            S.ob("R2-bootstrap-kind", f"{tag}:census", v, f"B = {B.canon()[:150]}", f"bootstrap calls {cen} differ from documented {sorted(want)}", read=[B])
     # the returned target equals the regression target
-    rets = [n for n in ast.walk(fn) if isinstance(n, ast.Return)]
-    rp = nf.poly(rets[0].value, sc, sc.cfg.node_of(rets[0]).id)
-    if rp.elems is not None and len(rp.elems) == 3 and Ts:
-        ck.ob("R5-regression-form", q, "returned-target", nf.unfreeze(rp.elems[2]) == Ts[0], "third result is the regression target", "" if rp.elems[2] == Ts[0] else "the reported q_target differs from the one regressed onto", where)
+    rets = [n for n in ast.walk(fn) if isinstance(n, ast.Return) and n.value is not None]
+    if len(rets) == 1 and Ts:
+        rp = nf.poly(rets[0].value, sc, sc.cfg.node_of(rets[0]).id)
+        if rp.elems is not None and len(rp.elems) == 3:
+            from ..sem import same_ingredients
+            got = nf.unfreeze(rp.elems[2])
+            same = got == Ts[0]
+            if not same and (any(nf.unfreeze(e) == Ts[0] for e in rp.elems if e.elems is None) or not same_ingredients(got, Ts[0])):
+                S.undecided("returned-target", f"the third result `{got.canon()[:80]}` is not built from the ingredients of the regression target / the target is returned at another position")
+            else:
+                S.ob("R5-regression-form", "returned-target", same, "third result is the regression target", "the reported q_target differs from the one regressed onto", read=[rp.elems[2], Ts[0]])
+    S.close()
+
+
+_NSTEP = "rl_blox.blox.return_estimates.discounted_n_step_return"
 
 
 def _mrq(ck, repo, nf):
     q = "rl_blox.algorithm.mrq.mrq_loss"
     fn = repo.func(q)
     mi = fn._module
-    where = loc(mi, fn)
-    params = param_names(fn)
+    S = _Site(ck, nf, q, loc(mi, fn))
+    env, ren = _roles_env(repo, fn, q)
+    params = [p.single_atom() for p in env.values()]
     for p in ("q", "q_target", "encoder", "encoder_target", "next_action", "batch", "gamma", "reward_scale", "target_reward_scale"):
         ck.need(p in params, f"{q}: parameter `{p}` vanished")
-    env = {p: Poly.atom(p, {p}, {p}) for p in params}
-    ret = nf.return_poly(q, env)
-    Lp = ret.elems[0] if ret.elems is not None else ret
+    ret = _ret(nf, q, env)
+    Lp = _loss_of(nf, ret)
     rs = regression_sites(nf, Lp)
-    ck.ob("R5-regression-form", q, "site-count", len(rs) == 2, f"{len(rs)} sites {[x['kind'] for x in rs]}", "" if len(rs) == 2 else "one Huber term per head documented", where)
+    S.ob("R5-regression-form", "site-count", len(rs) == 2, f"{len(rs)} sites {[x['kind'] for x in rs]}", "one Huber term per head documented", read=[Lp])
     for i, x in enumerate(rs):
         tag = f"site{i}"
-        okk = x["kind"] == "huber_abs" and x["delta"] is not None and x["delta"].canon() == "1" and x["coef"] == 1 and not x["weights"]
-        ck.ob("R5-regression-form", q, f"{tag}:kind", okk, f"{x['kind']} delta={x['delta'].canon() if x['delta'] is not None else None} coef={x['coef']}", "" if okk else "documented: Huber(|P - T|, 1.0), unit weight", where)
-        P, rest = split_pt(nf, x["X"], "q")
-        _readable_prediction(nf, P, q, "q")
-        okp = len(P.terms) == 1 and list(P.terms.values())[0] in (1, -1)
-        ck.ob("R4-stop-gradient", q, f"{tag}:single-differentiable-term", okp, f"{P.canon()[:100]}", "" if okp else "target side depends differentiably on q", where)
-        if not okp:
+        kind = _kind(S, nf, x, "q", tag)
+        if kind is None:
             continue
-        sign = list(P.terms.values())[0]
+        okk = kind == "huber_abs" and x["delta"] is not None and x["delta"].canon() == "1" and x["coef"] == 1 and not x["weights"]
+        S.ob("R5-regression-form", f"{tag}:kind", okk, f"{kind} delta={x['delta'].canon() if x['delta'] is not None else None} coef={x['coef']}", "documented: Huber(|P - T|, 1.0), unit weight",
+             read=[x["X"], x["delta"]] + [Poly.atom(a) for a, _e in x["weights"]])
+        pr = _prediction(S, nf, tag, x["X"], "q")
+        if pr is None:
+            continue
+        sign, P, rest = pr
         T = nf.unfreeze(rest.scale(-1) if sign == 1 else rest)
         # encoders are held fixed: the prediction must not depend differentiably on the encoder
         pg = set()
         for mono in P.terms:
             pg |= nf.term_gdeps(mono)
         oke = "encoder" not in pg and "encoder_target" not in pg
-        ck.ob("R4-stop-gradient", q, f"{tag}:encoder-fixed", oke, f"prediction differentiable in {sorted(pg)}", "" if oke else "the critic loss differentiates through the encoder (stop_gradient missing)", where)
+        S.ob("R4-stop-gradient", f"{tag}:encoder-fixed", oke, f"prediction differentiable in {sorted(pg)}", "the critic loss differentiates through the encoder (stop_gradient missing)", read=[P])
         pdm = nf.deps_of(P)
-        okr = {ROLE["O"], ROLE["A"]} <= pdm and "q_target" not in pdm and "encoder_target" not in pdm and ROLE["N"] not in pdm
-        ck.ob("R3-prediction", q, f"{tag}:prediction-inputs", okr, f"P = {P.canon()[:100]}", "" if okr else "prediction must be q.q_i(zsa(zs(o), a)) with the online encoder", where)
-        # T == (G + c*B*ts) / rs
-        sp = T.degree_split("reward_scale")
-        ok1 = set(sp) == {-1}
-        why = "" if ok1 else "target is not divided by reward_scale as a whole"
-        B = None
-        if ok1:
-            U = sp[-1]
-            G = "rl_blox.blox.return_estimates.discounted_n_step_return(batch[2], batch[4], gamma)[0]"
-            C = "rl_blox.blox.return_estimates.discounted_n_step_return(batch[2], batch[4], gamma)[1]"
-            cs = U.degree_split(C)
-            if set(cs) != {0, 1} or cs[0].canon() != G:
-                ok1, why = False, f"target numerator is not n_step_return + discount * ...: `{U.canon()[:120]}`"
-            else:
-                ts = cs[1].degree_split("target_reward_scale")
-                if set(ts) != {1}:
-                    ok1, why = False, "bootstrap is not scaled by target_reward_scale exactly once"
-                else:
-                    B = ts[1]
-        ck.ob("R1-target-identity", q, f"{tag}:(G+c*B*s_target)/s", ok1, f"T = {T.canon()[:150]}", why, where)
+        wrong = sorted({"q_target", "encoder_target", ROLE["N"]} & pdm)
+        okr = {ROLE["O"], ROLE["A"]} <= pdm and not wrong
+        if not okr and ((not wrong and "batch" in pdm) or not _raw_prediction(nf, P.scale(sign).single_atom(), "q")):
+            S.undecided(f"{tag}:prediction-inputs", "the fields of the batch are not visible in the prediction / the differentiable term is not an output of q itself")
+        else:
+            S.ob("R3-prediction", f"{tag}:prediction-inputs", okr, f"P = {P.canon()[:100]}", "prediction must be q.q_i(zsa(zs(o), a)) with the online encoder", read=[P])
+        B = _mrq_target(S, nf, tag, T)
         if B is not None:
-            cen = census(nf, B, set(params))
-            want = sorted(["encoder_target.encode_zs <- {N}", "encoder_target.encode_zsa <- {N}", "q_target <- {N}"])
-            okc = cen == want and len(B.terms) == 1 and list(B.terms.values())[0] == 1
-            ck.ob("R2-bootstrap-kind", q, f"{tag}:census", okc, f"B = {B.canon()[:140]}", "" if okc else f"bootstrap calls {cen} differ from documented {want} (unit coefficient)", where)
+            cen, unknown = census(nf, B, set(params))
+            want = ["encoder_target.encode_zs <- {N}", "encoder_target.encode_zsa <- {N}", "q_target <- {N}"]
+            v = census_verdict(cen, unknown, want, set(params))
+            if isinstance(v, str):
+                S.undecided(f"{tag}:census", v)
+            else:
+                okc = v and len(B.terms) == 1 and list(B.terms.values())[0] == 1
+                S.ob("R2-bootstrap-kind", f"{tag}:census", okc, f"B = {B.canon()[:140]}", f"bootstrap calls {cen} differ from documented {sorted(want)} (unit coefficient)", read=[B])
+    S.close()
+
+
+def _mrq_target(S, nf, tag, T):
+    """B for T == (G + c * B * target_reward_scale) / reward_scale with (G, c) the two results of discounted_n_step_return(reward, terminated, gamma)."""
+    key = f"{tag}:(G+c*B*s_target)/s"
+    shown = f"T = {T.canon()[:150]}"
+    G, C = f"{_NSTEP}(batch[2], batch[4], gamma)[0]", f"{_NSTEP}(batch[2], batch[4], gamma)[1]"
+    a = _nested(nf, T, ("reward_scale", "target_reward_scale"))
+    if a is not None:
+        return S.undecided(key, f"the reward scales enter the target inside `{a[:80]}`")
+    # the n-step calls the target is built from, with their arguments
+    calls = {}
+    for at_ in T.atoms():
+        m = nf.meta.get(at_) or {}
+        inner = nf.meta.get(m["args"][0].single_atom() or "") if m.get("fn") == "proj" and m.get("args") else None
+        if inner and inner["fn"] == _NSTEP:
+            calls[at_] = [x.canon() for x in inner["args"]] + [f"{k}={v_.canon()}" for k, v_ in sorted(inner["kws"].items())]
+    if not any(a_ in calls for a_ in (G, C)):
+        others = [c for c in calls.values() if c != ["batch[2]", "batch[4]", "gamma"]]
+        if others and all(_LEAF.fullmatch(x) for c in others for x in c):
+            S.ob("R1-target-identity", key, False, shown, f"the n-step return is computed from {others[0]} instead of (reward, terminated, gamma)", read=[T])
+            return None
+        return S.undecided(key, "the results of discounted_n_step_return(reward, terminated, gamma) are not visible in the target")
+    sp = T.degree_split("reward_scale")
+    ok1 = set(sp) == {-1}
+    why = "" if ok1 else "target is not divided by reward_scale as a whole"
+    B = None
+    if ok1:
+        U = sp[-1]
+        cs = U.degree_split(C)
+        if set(cs) != {0, 1} or cs[0].canon() != G:
+            ok1, why = False, f"target numerator is not n_step_return + discount * ...: `{U.canon()[:120]}`"
+        else:
+            ts = cs[1].degree_split("target_reward_scale")
+            if set(ts) != {1}:
+                ok1, why = False, "bootstrap is not scaled by target_reward_scale exactly once"
+            else:
+                B = ts[1]
+    r = S.ob("R1-target-identity", key, ok1, shown, why, read=[T])
+    return B if r is True else None
 
 
 def _sale(ck, repo, nf):
     q = "rl_blox.blox.embedding.sale.state_action_embedding_loss"
     fn = repo.func(q)
-    where = loc(fn._module, fn)
-    params = param_names(fn)
-    ck.need(params[:4] == ["embedding", "observation", "action", "next_observation"], f"{q}: signature changed")
-    env = {p: Poly.atom(p, {p}, {p}) for p in params}
-    Lp = nf.return_poly(q, env)
+    S = _Site(ck, nf, q, loc(fn._module, fn))
+    env, ren = _roles_env(repo, fn, q)
+    params = [p.single_atom() for p in env.values()]
+    ck.need(all(p in params for p in ("embedding", "observation", "action", "next_observation")), f"{q}: signature changed")
+    Lp = _ret(nf, q, env)
     rs = regression_sites(nf, Lp)
     ok = len(rs) == 1 and rs[0]["kind"] == "sq" and rs[0]["coef"] == 1 and not rs[0]["weights"]
-    ck.ob("R6-representation", q, "mse-form", ok, f"{[x['kind'] for x in rs]}", "" if ok else "documented: mean squared error, unit weight", where)
+    S.ob("R6-representation", "mse-form", ok, f"{[x['kind'] for x in rs]}", "documented: mean squared error, unit weight", read=[Lp])
     if ok:
         P, rest = split_pt(nf, rs[0]["X"], "embedding")
-        okp = len(P.terms) == 1 and {"observation", "action"} <= nf.deps_of(P) and "next_observation" not in nf.deps_of(P)
-        ck.ob("R6-representation", q, "prediction", okp, f"P = {P.canon()[:100]}", "" if okp else "prediction must be zsa = embedding(observation, action)[0] only (target must be gradient-stopped)", where)
+        if not P.terms:
+            S.undecided("prediction", "no term of the error depends differentiably on the embedding")
+        else:
+            okp = len(P.terms) == 1 and {"observation", "action"} <= nf.deps_of(P) and "next_observation" not in nf.deps_of(P)
+            S.ob("R6-representation", "prediction", okp, f"P = {P.canon()[:100]}", "prediction must be zsa = embedding(observation, action)[0] only (target must be gradient-stopped)", read=[P])
         rest = nf.unfreeze(rest)
-        okt = len(rest.terms) == 1 and "next_observation" in nf.deps_of(rest) and not ({"observation", "action"} & nf.deps_of(rest)) and "state_embedding" in rest.canon()
-        ck.ob("R6-representation", q, "target", okt, f"T = {rest.canon()[:100]}", "" if okt else "target must be stop_gradient(embedding.state_embedding(next_observation))", where)
+        td = nf.deps_of(rest)
+        tm = nf.meta.get(next(iter(rest.atoms()), "")) or {} if len(rest.terms) == 1 and len(rest.atoms()) == 1 else {}
+        targs = [x.canon() for x in tm.get("args", [])] + [f"{k}={v.canon()}" for k, v in sorted(tm.get("kws", {}).items())]
+        okt = tm.get("fn") == "embedding.state_embedding" and targs == ["next_observation"]
+        if not okt and not (tm.get("fn") == "embedding.state_embedding" and all(_LEAF.fullmatch(x) for x in targs)):
+            S.undecided("target", f"`{rest.canon()[:80]}` is not a call embedding.state_embedding(<argument>)")
+        else:
+            S.ob("R6-representation", "target", okt, f"T = {rest.canon()[:100]}", "target must be stop_gradient(embedding.state_embedding(next_observation))", read=[rest])
+    S.close()
 
 
 # ---------------------------------------------------------------------------------------------------------
@@ -486,19 +955,79 @@ CALLERS = {
     "rl_blox.algorithm.sac.train_sac": (L + "sac_loss", ["q_target"], "q"),
     "rl_blox.algorithm.dqn.train_dqn": (L + "dqn_loss", [], "q"),
 }
+_RESOLVED = ("param", "clone", "param|clone", "obj", "attr")          # identities of known objects; everything else (phi, call, value, expr ...) is unresolved
+_TSWL = "rl_blox.algorithm.dqn.train_step_with_loss"
 
 
-def _callers(ck, repo):
+def _known(ident):
+    return all(isinstance(i, tuple) and i and i[0] in _RESOLVED and (i[0] != "attr" or _known(i[1])) for i in alternatives(ident))
+
+
+def _batch_source(cfg, e, at, depth=0):
+    """Where a batch-valued expression comes from: ('sample', defs key, unpack path) for the result of <buffer>.sample_batch(..) reached through plain
+    copies, else None."""
+    if depth > 6 or not isinstance(e, ast.Name):
+        return None
+    ds = cfg.defs_of(at, e.id)
+    if len(ds) != 1 or ds[0].value is None:
+        return None
+    d = ds[0]
+    v = d.value
+    if d.kind == "assign" and isinstance(v, ast.Name):
+        return _batch_source(cfg, v, d.node, depth + 1)
+    if d.kind in ("assign", "unpack") and isinstance(v, ast.Call) and isinstance(v.func, ast.Attribute) and v.func.attr == "sample_batch":
+        return ("sample", d.node, tuple(d.path or ()) if d.kind == "unpack" else ())
+    return None
+
+
+def _defining_call(cfg, e, at, depth=0):
+    """(call, node) that produces the value of ``e``, through plain copies."""
+    if isinstance(e, ast.Call):
+        return e, at
+    if depth < 6 and isinstance(e, ast.Name):
+        ds = cfg.defs_of(at, e.id)
+        if len(ds) == 1 and ds[0].kind == "assign" and ds[0].value is not None:
+            return _defining_call(cfg, ds[0].value, ds[0].node, depth + 1)
+    return None
+
+
+def _batch_field(cfg, e, at, order, depth=0):
+    """(batch expression, node to read it at, field position) when ``e`` is a field of a batch: `b.next_observation`, `b[3]`, or a copy of one."""
+    if depth > 6:
+        return None
+    if isinstance(e, ast.Attribute) and e.attr in order:
+        return e.value, at, order.index(e.attr)
+    if isinstance(e, ast.Subscript) and isinstance(e.slice, ast.Constant) and isinstance(e.slice.value, int) and e.slice.value >= 0:
+        return e.value, at, e.slice.value
+    if isinstance(e, ast.Name):
+        ds = cfg.defs_of(at, e.id)
+        if len(ds) == 1 and ds[0].value is not None:
+            d = ds[0]
+            if d.kind == "assign":
+                return _batch_field(cfg, d.value, d.node, order, depth + 1)
+            if d.kind == "unpack" and len(d.path or ()) == 1 and isinstance(d.path[0], int) and isinstance(d.value, ast.Name):
+                return d.value, d.node, d.path[0]
+    return None
+
+
+def _callers(ck, repo, order):
     from .c06 import HELPERS
     res = Resolver(repo)
     idn = Ident(repo)
+    nfc = NF(repo, inline_calls=False)
+    tsw = repo.func(_TSWL)
+    tp = positional_params(tsw)
+    ck.need(len(tp) >= 3 and tsw.args.vararg is not None, f"{_TSWL}: signature changed (anchor vanished)")
     n = 0
+    und = []
     for tq, (lq, troles, theta) in CALLERS.items():
         fn = repo.func(tq)
         mi = fn._module
         cfg = res.cfg_of(fn)
         lfn = repo.func(lq)
         lparams = positional_params(lfn)
+        _lenv, lren = _roles_env(repo, lfn, lq)
+        tenv, _tren = _roles_env(repo, fn, tq)
         # target identities of this loop: second arguments of the target-update helpers
         tids, oids = [], []
         from .c06 import _helper_calls
@@ -510,6 +1039,20 @@ def _callers(ck, repo):
         found = False
         if troles and not tids:
             raise AnalysisError(f"{tq}: no target-update helper call is visible in this loop, so its target networks cannot be identified (unrecognised form)")
+
+        def role_of(ident):
+            """'target' / 'online' / 'other' for a known object, None for an identity that was not resolved."""
+            if not _known(ident):
+                return None
+            alts = alternatives(ident)
+
+            def among(a, ids):      # the object, one of its sub-modules, or the object it is a sub-module of
+                return any(has_base(a, i) or has_base(i, a) for i in ids)
+            if all(among(a, tids) for a in alts) and not any(among(a, oids) for a in alts):
+                return "target"
+            if any(among(a, tids) for a in alts):
+                return None
+            return "online" if all(among(a, oids) for a in alts) else "other"
         for node in cfg.nodes:
             if node.ast is None or node.kind != "stmt":
                 continue
@@ -517,63 +1060,89 @@ def _callers(ck, repo):
                 if not isinstance(c, ast.Call):
                     continue
                 t = res.resolve(c.func, mi, cfg, node.id)
-                if not (t and t.qual == "rl_blox.algorithm.dqn.train_step_with_loss"):
+                if not (t and t.qual == _TSWL):
                     continue
                 # train_step = partial(train_step_with_loss, <loss>): prefix[0] is the loss
                 ck.need(t.prefix and repo.resolve_expr(mi, t.prefix[0]) == lq, f"{tq}: train_step is not bound to {lq} (anchor vanished)")
                 found = True
                 n += 1
-                args = list(c.args)
-                ck.need(len(args) >= 2, f"{tq}: train_step call has too few positional arguments")
-                # train_step_with_loss(loss, optimizer, q, *args): loss parameters are (q, *args)
-                largs = args[1:]
-                b = {p: a for p, a in zip(lparams, largs)}
-                for kw in c.keywords:
-                    if kw.arg:
-                        b[kw.arg] = kw.value
                 where = loc(mi, c)
-                th = b.get(theta)
-                th_id = idn.of(th, mi, cfg, node.id, tq) if th is not None else None
-                ok = th_id is not None and th_id not in tids and (not oids or th_id in oids)
-                ck.ob("R7-caller-roles", tq, f"online:{theta}", ok, f"{theta} <- `{short(th) if th is not None else None}`",
-                      "" if ok else "the differentiated (online) critic parameter receives a target object or an object that is never copied to a target", where)
+                if any(isinstance(a, ast.Starred) for a in c.args) or any(k.arg is None for k in c.keywords):
+                    raise AnalysisError(f"{tq}: train_step call `{short(c, 60)}` unpacks its arguments (unrecognised form)")
+                # train_step_with_loss(loss, optimizer, q, *args, **kwargs): the loss receives (q, *args, **kwargs) - bound by the two signatures
+                b0 = bind_call(tsw, c, prefix=t.prefix)
+                for k, v in t.kwargs.items():
+                    b0.setdefault(k, v)
+                first = b0.get(tp[2])
+                ck.need(first is not None, f"{tq}: train_step call passes no differentiated module")
+                b = dict(zip(lparams, [first] + list(b0.get("*" + tsw.args.vararg.arg, []))))
+                for k, v in b0.items():
+                    if k not in tp and not k.startswith("*"):
+                        b[k] = v
+
+                def arg(canon):
+                    return b.get(_actual(lren, canon))
+                th = arg(theta)
+                th_role = role_of(idn.of(th, mi, cfg, node.id, tq)) if th is not None else None
+                shown = f"{theta} <- `{short(th) if th is not None else None}`"
+                if th is None or th_role is None:
+                    und.append(f"{tq}: online:{theta}: the object passed, {shown}, could not be identified (unrecognised form)")
+                else:
+                    ok = th_role == "online" or (th_role == "other" and not oids)
+                    ck.ob("R7-caller-roles", tq, f"online:{theta}", ok, shown,
+                          "" if ok else "the differentiated (online) critic parameter receives a target object or an object that is never copied to a target", where)
                 for tr in troles:
-                    a = b.get(tr)
-                    a_id = idn.of(a, mi, cfg, node.id, tq) if a is not None else None
-                    ok = a_id is not None and a_id in tids
-                    ck.ob("R7-caller-roles", tq, f"target:{tr}", ok, f"{tr} <- `{short(a) if a is not None else None}`",
+                    a = arg(tr)
+                    a_role = role_of(idn.of(a, mi, cfg, node.id, tq)) if a is not None else None
+                    shown = f"{tr} <- `{short(a) if a is not None else None}`"
+                    if a is None or a_role is None:
+                        und.append(f"{tq}: target:{tr}: the object passed, {shown}, could not be identified (unrecognised form)")
+                        continue
+                    ok = a_role == "target"
+                    ck.ob("R7-caller-roles", tq, f"target:{tr}", ok, shown,
                           "" if ok else f"the target-role parameter `{tr}` of {lq.rsplit('.', 1)[1]} does not receive a target network of this loop (online and target swapped?)", where)
-                g = b.get("gamma")
-                ok = isinstance(g, ast.Name) and g.id == "gamma"
-                ck.ob("R7-caller-roles", tq, "gamma", ok, f"gamma <- `{short(g) if g is not None else None}`", "" if ok else "the discount passed to the loss is not the gamma parameter", where)
-                bt = b.get("batch")
-                okb = False
-                if isinstance(bt, ast.Name):
-                    ds = cfg.defs_of(node.id, bt.id)
-                    okb = len(ds) == 1 and ds[0].value is not None and isinstance(ds[0].value, ast.Call) and isinstance(ds[0].value.func, ast.Attribute) and ds[0].value.func.attr == "sample_batch" \
-                        and (ds[0].kind == "assign" or (ds[0].kind == "unpack" and ds[0].path == (0,)))
-                ck.ob("R7-caller-roles", tq, "batch", okb, f"batch <- `{short(bt) if bt is not None else None}`", "" if okb else "the batch passed to the loss is not the (unmodified) result of sample_batch", where)
+                # gamma: the value passed is the loop's own gamma parameter (read through copies / float() / asarray)
+                g = arg("gamma")
+                shown = f"gamma <- `{short(g) if g is not None else None}`"
+                gp = nfc.poly(g, Scope(cfg, mi, tenv, tq), node.id) if g is not None else None
+                ga = gp.single_atom() if gp is not None else None
+                tparams = {p.single_atom() for p in tenv.values()}
+                if g is None or "gamma" not in tparams or not (gp.is_const() or (ga in tparams)):
+                    und.append(f"{tq}: gamma: {shown} is not traced to a parameter of the loop (unrecognised form)")
+                else:
+                    ok = ga == "gamma"
+                    ck.ob("R7-caller-roles", tq, "gamma", ok, shown, "" if ok else "the discount passed to the loss is not the gamma parameter", where)
+                # batch: the unmodified result of sample_batch
+                bt = arg("batch")
+                shown = f"batch <- `{short(bt) if bt is not None else None}`"
+                src = _batch_source(cfg, bt, node.id) if bt is not None else None
+                if src is None:
+                    und.append(f"{tq}: batch: {shown} is not traced to a sample_batch call (unrecognised form)")
+                else:
+                    okb = src[2] in ((), (0,))
+                    ck.ob("R7-caller-roles", tq, "batch", okb, shown, "" if okb else "the batch passed to the loss is not the batch component of the sample_batch result", where)
+                # TD3 / TD3-LAP: the smoothed next action comes from the *target* policy on the successor observations of this batch.  Read by dataflow: the
+                # call that produces the loss's `next_action` argument receives exactly one network of the loop and exactly one field of the batch
+                if "next_action" in {lren.get(p_, p_) for p_ in lparams}:
+                    na = arg("next_action")
+                    dc = _defining_call(cfg, na, node.id) if na is not None else None
+                    key = "smoothed-next-action"
+                    if dc is None:
+                        und.append(f"{tq}: {key}: `{short(na) if na is not None else None}` is not the result of a visible call (unrecognised form)")
+                        continue
+                    c2, at2 = dc
+                    args2 = [a for a in c2.args if not isinstance(a, ast.Starred)] + [k.value for k in c2.keywords if k.arg]
+                    objs = [r for a in args2 for r in [role_of(idn.of(a, mi, cfg, at2, tq))] if r in ("target", "online")]
+                    flds = [(f, s_) for a in args2 for f in [_batch_field(cfg, a, at2, order)] if f is not None for s_ in [_batch_source(cfg, f[0], f[1])] if s_ is not None]
+                    if len(objs) != 1 or len(flds) != 1 or len(args2) != len(c2.args) + len(c2.keywords) or (src is not None and flds[0][1][1] != src[1]) or flds[0][1][2] not in ((), (0,)):
+                        und.append(f"{tq}: {key}: `{short(c2, 70)}`: the policy object or the batch field passed could not be identified (unrecognised form)")
+                        continue
+                    ok = objs[0] == "target" and flds[0][0][2] == 3
+                    ck.ob("R7-caller-roles", tq, key, ok, f"`{short(c2, 70)}`", "" if ok else "target-policy smoothing must use the target policy on the batch's successor observations", loc(mi, c2))
         ck.need(found, f"{tq}: no train_step call found (anchor vanished)")
     ck.floor("train-step-call-sites", n, 8)
-    # TD3 / TD3-LAP: the smoothed next action comes from the *target* policy on batch.next_observation
-    for tq in ("rl_blox.algorithm.td3.train_td3", "rl_blox.algorithm.td3_lap.train_td3_lap"):
-        fn = repo.func(tq)
-        mi = fn._module
-        cfg = res.cfg_of(fn)
-        hit = False
-        for node in cfg.nodes:
-            if node.ast is None or node.kind != "stmt":
-                continue
-            for c in ast.walk(node.ast):
-                if isinstance(c, ast.Call):
-                    t = res.resolve(c.func, mi, cfg, node.id)
-                    if t and t.qual == "rl_blox.algorithm.td3.sample_target_actions":
-                        hit = True
-                        a0 = c.args[0] if c.args else None
-                        a1 = c.args[1] if len(c.args) > 1 else None
-                        ok = isinstance(a0, ast.Name) and a0.id == "policy_target" and a1 is not None and ast.unparse(a1) in ("batch.next_observation", "batch[3]")
-                        ck.ob("R7-caller-roles", tq, "smoothed-next-action", ok, f"`{short(c, 70)}`", "" if ok else "target-policy smoothing must use the target policy on the batch's successor observations", loc(mi, c))
-        ck.need(hit, f"{tq}: sample_target_actions call not found")
+    if und:
+        raise AnalysisError("; ".join(und[:4]))
 
 
 # ---- self-validation variants -------------------------------------------------------------------------------
@@ -614,6 +1183,20 @@ MUTANTS = [
     {"id": "c03-td3-swapped-at-call", "file": "rl_blox/algorithm/td3.py", "rule": "R7", "find": "                    q_optimizer,\n                    q,\n                    q_target,\n                    next_actions,", "replace": "                    q_optimizer,\n                    q_target,\n                    q,\n                    next_actions,"},
     {"id": "c03-td3-online-smoothing", "file": "rl_blox/algorithm/td3.py", "rule": "R7", "find": "                    policy_target, batch.next_observation, sampling_key", "replace": "                    policy, batch.next_observation, sampling_key"},
     {"id": "c03-sac-wrong-gamma", "file": "rl_blox/algorithm/sac.py", "rule": "R7", "find": "                batch,\n                gamma,\n            )\n            stats = {\"q loss\"", "replace": "                batch,\n                tau,\n            )\n            stats = {\"q loss\""},
+    # evidence paths added by the audit: mask read semantically, weights with exponents, dataflow reading of the smoothing call, n-step arguments, wrong tuple component
+    {"id": "c03-td3-where-swapped", "file": _F, "rule": "R1", "find": _TD3T, "replace": _TD3T.replace("reward + (1 - terminated) * gamma * q_next", "jnp.where(terminated, reward + gamma * q_next, reward)")},
+    {"id": "c03-td7-mask-inside-clip", "file": "rl_blox/algorithm/td7.py", "rule": "R1", "edits": [
+        ("    q_next_target = jnp.clip(q_next_target, q_min, q_max)\n", "    q_next_target = jnp.clip((1 - terminated) * q_next_target, q_min, q_max)\n"),
+        ("    q_target = reward + (1 - terminated) * gamma * q_next_target", "    q_target = reward + gamma * q_next_target")]},
+    {"id": "c03-per-weight-squared", "file": _F, "rule": "R5", "find": "    weighted_loss = is_ratio * (td_error**2)", "replace": "    weighted_loss = is_ratio**2 * (td_error**2)"},
+    {"id": "c03-td3-smoothing-at-obs", "file": "rl_blox/algorithm/td3.py", "rule": "R7", "find": "                    policy_target, batch.next_observation, sampling_key", "replace": "                    policy_target, batch.observation, sampling_key"},
+    {"id": "c03-per-batch-wrong-component", "file": "rl_blox/algorithm/per.py", "rule": "R7", "find": "                transition_batch, is_ratio = replay_buffer.sample_batch(", "replace": "                is_ratio, transition_batch = replay_buffer.sample_batch("},
+    {"id": "c03-mrq-nstep-args-swapped", "file": "rl_blox/algorithm/mrq.py", "rule": "R1", "find": "    n_step_return, discount = discounted_n_step_return(\n        reward, terminated, gamma\n    )", "replace": "    n_step_return, discount = discounted_n_step_return(\n        terminated, reward, gamma\n    )"},
+    {"id": "c03-sale-target-at-obs", "file": "rl_blox/blox/embedding/sale.py", "rule": "R6", "find": "    zsp = jax.lax.stop_gradient(embedding.state_embedding(next_observation))", "replace": "    zsp = jax.lax.stop_gradient(embedding.state_embedding(observation))"},
+    {"id": "c03-dq-mean-difference", "file": "rl_blox/blox/double_qnet.py", "rule": "R2", "find": "        return 0.5 * (self.q1(*args, **kwargs) + self.q2(*args, **kwargs))", "replace": "        return 0.5 * (self.q1(*args, **kwargs) - self.q2(*args, **kwargs))"},
+    {"id": "c03-dq-same-head-twice", "file": "rl_blox/blox/double_qnet.py", "rule": "R2", "find": "        return jnp.minimum(self.q1(*args, **kwargs), self.q2(*args, **kwargs))", "replace": "        return jnp.minimum(self.q1(*args, **kwargs), self.q1(*args, **kwargs))"},
+    {"id": "c03-td7-returned-target-unmasked", "file": "rl_blox/algorithm/td7.py", "rule": "R5", "find": "    return q_loss_value, max_abs_td_error, q_target\n", "replace": "    return q_loss_value, max_abs_td_error, reward + gamma * q_next_target\n"},
+    {"id": "c03-ddpg-bootstrap-tanh", "file": _F, "rule": "R2", "find": "    q_next = jax.lax.stop_gradient(q_target_value(next_obs_act).squeeze())", "replace": "    q_next = jax.lax.stop_gradient(jnp.tanh(q_target_value(next_obs_act).squeeze()))"},
 ]
 BENIGN = [
     {"id": "c03-b-td3-not-done", "file": _F, "find": _TD3T, "replace": _TD3T.replace("    q_target_value = reward + (1 - terminated) * gamma * q_next", "    not_done = 1 - terminated\n    q_target_value = reward + gamma * not_done * q_next")},
@@ -623,4 +1206,29 @@ BENIGN = [
     {"id": "c03-b-ddpg-hstack", "file": _F, "find": "    next_obs_act = jnp.concatenate((next_observation, next_actions), axis=-1)\n    q_next = jax.lax.stop_gradient(q_target_value(next_obs_act).squeeze())", "replace": "    next_obs_act = jnp.concatenate([next_observation, next_actions], axis=-1)\n    q_next = jax.lax.stop_gradient(q_target_value(next_obs_act).squeeze())"},
     {"id": "c03-b-mse-manual", "file": _F, "find": "    q1_loss = optax.squared_error(\n        predictions=q1_predicted, targets=q_target_value\n    ).mean()", "replace": "    q1_loss = jnp.mean((q_target_value - q1_predicted) ** 2)"},
     {"id": "c03-b-sac-sg-split", "file": _F, "find": "    q_next_target = jax.lax.stop_gradient(\n        q_target(next_obs_act).squeeze() - alpha * next_log_pi\n    )", "replace": "    q_next_target = jax.lax.stop_gradient(\n        q_target(next_obs_act).squeeze()\n    ) - alpha * next_log_pi"},
+    # refactoring kinds the rules were made tolerant to by the audit (each is behaviour preserving)
+    {"id": "c03-b-dqn-axis-last", "file": _F, "find": "    next_q = jax.lax.stop_gradient(q(next_obs))\n    max_next_q = jnp.max(next_q, axis=1)\n\n    q_target_values", "replace": "    next_q = jax.lax.stop_gradient(q(next_obs))\n    max_next_q = jnp.max(next_q, axis=-1)\n\n    q_target_values"},
+    {"id": "c03-b-ddqn-newaxis-positional-axis", "file": _F, "nth": 0, "find": "    indices = jnp.argmax(next_q, axis=1).reshape(-1, 1)", "replace": "    indices = jnp.expand_dims(jnp.argmax(next_q, 1), 1)"},
+    {"id": "c03-b-per-signed-square", "file": _F, "edits": [("    td_error = jnp.abs(pred - target)\n", "    delta = pred - target\n    td_error = jnp.abs(delta)\n"), ("    weighted_loss = is_ratio * (td_error**2)", "    weighted_loss = jax.lax.stop_gradient(is_ratio) * delta**2")]},
+    {"id": "c03-b-td3-batch-fields-renamed-params", "file": _F, "nth": 0, "edits": [
+        ("    next_action: jnp.ndarray,\n    batch: tuple[\n        jnp.ndarray, jnp.ndarray, jnp.ndarray, jnp.ndarray, jnp.ndarray\n    ],\n    gamma: float,\n) -> tuple[float, float]:",
+         "    next_action: jnp.ndarray,\n    transitions: tuple[\n        jnp.ndarray, jnp.ndarray, jnp.ndarray, jnp.ndarray, jnp.ndarray\n    ],\n    discount: float,\n) -> tuple[float, float]:"),
+        ("    observation, action, reward, next_observation, terminated = batch\n    next_obs_act = jnp.concatenate((next_observation, next_action), axis=-1)\n    q_next = jax.lax.stop_gradient(q_target(next_obs_act).squeeze())\n    q_target_value = reward + (1 - terminated) * gamma * q_next\n    return _mse_clipped",
+         "    observation, action = transitions.observation, transitions.action\n    reward, next_observation, terminated = transitions.reward, transitions.next_observation, transitions.termination\n    next_obs_act = jnp.concatenate((next_observation, next_action), axis=-1)\n    q_next = jax.lax.stop_gradient(q_target(next_obs_act).squeeze())\n    q_target_value = reward + (1 - terminated) * discount * q_next\n    return _mse_clipped")]},
+    {"id": "c03-b-td3-where-mask", "file": _F, "find": _TD3T, "replace": _TD3T.replace("reward + (1 - terminated) * gamma * q_next", "jnp.where(terminated, reward, reward + gamma * q_next)")},
+    {"id": "c03-b-td3-logical-not-mask", "file": _F, "find": _TD3T, "replace": _TD3T.replace("reward + (1 - terminated) * gamma * q_next", "reward + jnp.logical_not(terminated) * gamma * q_next")},
+    {"id": "c03-b-lap-delta-keyword", "file": _F, "find": "        huber_loss(td_error1, min_priority).mean()\n        + huber_loss(td_error2, min_priority).mean(),", "replace": "        huber_loss(td_error1, delta=min_priority).mean()\n        + huber_loss(abs_errors=td_error2, delta=min_priority).mean(),"},
+    {"id": "c03-b-sac-hstack", "file": _F, "find": "    next_obs_act = jnp.concatenate((next_observation, next_actions), axis=-1)\n    q_next_target = jax.lax.stop_gradient(", "replace": "    next_obs_act = jnp.hstack((next_observation, next_actions))\n    q_next_target = jax.lax.stop_gradient("},
+    {"id": "c03-b-dq-methods-in-mixin", "file": "rl_blox/blox/double_qnet.py", "edits": [
+        ("class ContinuousClippedDoubleQNet(nnx.Module):", "class _TwoHeads:\n    def __call__(self, *args, **kwargs) -> jnp.ndarray:\n        first = self.q1(*args, **kwargs)\n        second = self.q2(*args, **kwargs)\n        return jnp.minimum(second, first)\n\n    def mean(self, *args, **kwargs) -> jnp.ndarray:\n        return (self.q1(*args, **kwargs) + self.q2(*args, **kwargs)) / 2\n\n\nclass ContinuousClippedDoubleQNet(_TwoHeads, nnx.Module):"),
+        ("    def __call__(self, *args, **kwargs) -> jnp.ndarray:\n        return jnp.minimum(self.q1(*args, **kwargs), self.q2(*args, **kwargs))\n\n    def mean(self, *args, **kwargs) -> jnp.ndarray:\n        \"\"\"Predict mean of both Q networks.\"\"\"\n        return 0.5 * (self.q1(*args, **kwargs) + self.q2(*args, **kwargs))\n", "    n_heads = 2\n")]},
+    {"id": "c03-b-td7-optax-positional-delta", "file": "rl_blox/algorithm/td7.py", "find": "        optax.huber_loss(\n            predictions=q1_pred, targets=q_target, delta=min_priority\n        ).mean()", "replace": "        optax.huber_loss(q1_pred, q_target, min_priority).mean()"},
+    {"id": "c03-b-sac-float-gamma", "file": "rl_blox/algorithm/sac.py", "find": "                batch,\n                gamma,\n            )\n            stats = {\"q loss\"", "replace": "                batch,\n                float(gamma),\n            )\n            stats = {\"q loss\""},
+    {"id": "c03-b-td3-call-keywords-copies", "file": "rl_blox/algorithm/td3.py", "edits": [
+        ("                    policy_target, batch.next_observation, sampling_key", "                    policy_target, batch[3], sampling_key"),
+        ("                q_loss_value, q_mean = train_step(\n                    q_optimizer,\n                    q,\n                    q_target,\n                    next_actions,\n                    batch,\n                    gamma,\n                )",
+         "                discount = gamma\n                transitions = batch\n                q_loss_value, q_mean = train_step(\n                    q_optimizer,\n                    q,\n                    q_target,\n                    next_actions,\n                    batch=transitions,\n                    gamma=discount,\n                )")]},
+    {"id": "c03-b-buffer-keys-constant", "file": "rl_blox/blox/replay_buffer.py", "nth": 0, "edits": [
+        ("            keys = [\n                \"observation\",\n                \"action\",\n                \"reward\",\n                \"next_observation\",\n                \"termination\",\n            ]\n", "            keys = list(_DEFAULT_KEYS)\n"),
+        ("import copy\n", "import copy\n\n_DEFAULT_KEYS = (\"observation\", \"action\", \"reward\", \"next_observation\", \"termination\")\n")]},
 ]
